@@ -65,9 +65,37 @@ impl<T> IndexSet<T> {
     #[verifier::external_body]
     pub fn is_empty(&self) -> (b: bool) ensures b == (self@.len() == 0) { unimplemented!() }
 
+    /// indexmap: "Returns true if all elements of self are contained in other"
+    #[verifier::external_body]
+    pub fn is_subset(&self, other: &IndexSet<T>) -> (b: bool) ensures b == (forall|x: T| self@.contains(x) ==> other@.contains(x)) { unimplemented!() }
+
+    #[verifier::external_body]
+    pub fn is_superset(&self, other: &IndexSet<T>) -> (b: bool) ensures b == (forall|x: T| other@.contains(x) ==> self@.contains(x)) { unimplemented!() }
+
     #[verifier::external_body]
     pub fn len(&self) -> (n: usize) ensures n == self@.len() { unimplemented!() }
 
+}
+
+/// indexmap::set::Difference: "A lazy iterator producing elements in the difference of IndexSets", in the order of the first set
+pub struct Difference<'a, T> { pub a: &'a IndexSet<T>, pub b: &'a IndexSet<T>, pub pos: Ghost<int> }
+
+impl<T> IndexSet<T> {
+    #[verifier::external_body]
+    pub fn difference<'a>(&'a self, other: &'a IndexSet<T>) -> (r: Difference<'a, T>)
+        ensures r.a@ == self@, r.b@ == other@, r.pos@ == 0,
+    { unimplemented!() }
+}
+
+impl<'a, T> Difference<'a, T> {
+    #[verifier::external_body]
+    pub fn next(&mut self) -> (r: Option<&'a T>)
+        ensures
+            final(self).a@ == old(self).a@, final(self).b@ == old(self).b@,
+            r is Some ==> old(self).a@.contains(*r->Some_0) && !old(self).b@.contains(*r->Some_0),
+            r is None ==> forall|i: int| old(self).pos@ <= i < old(self).a@.len() ==> old(self).b@.contains(#[trigger] old(self).a@[i]),
+            r is Some ==> final(self).pos@ > old(self).pos@,
+    { unimplemented!() }
 }
 
 impl<T> IndexSet<T> {
